@@ -449,6 +449,13 @@ def run_pipeline(
             is_destructive_readout: bool = not detector.non_destructive_readout
             detector.empty(is_destructive_readout)
 
+            if debug and detector._intermediate is not None:
+                # In debug mode, the first model of this readout is compared to the
+                # state of the detector at the beginning of this readout
+                detector.intermediate["last"] = xr.DataTree(
+                    detector.to_xarray().copy(deep=True)
+                )
+
             # Execute the pipeline for this step.
             processor.run_pipeline(debug=debug)
 
